@@ -489,8 +489,10 @@ func (rr *DefaultRelationsResolver) InboundRelationsOf(toState string) (
 		return nil, fmt.Errorf("%w: %s", ErrStateUnknown, toState)
 	}
 
+	// in the order of state names, not of the schema map
 	var states S
-	for name, state := range m.schema {
+	for _, name := range m.stateNames {
+		state := m.schema[name]
 		if name == toState {
 			continue
 		}
